@@ -63,6 +63,7 @@ func nilConst(v ssa.Value) bool {
 }
 
 func runC04(r *engine.Run) {
+	r.Rule("AGREE-fields", "see C14: each node kind decodes exactly the fields it encodes, cutting at the first separator only (an extension's child hash is raw bytes and may contain the separator: a decoder that splits at every separator truncates it, and the subtree below is missing when the saved state is read back)")
 	r.Rule("DOM-takeover", "in MergeDB the iteration over the donor store (through which the donor's nodes enter this trie's pending changes) dominates every return: no shortcut - being at the donor's root already, say - skips the take-over, after which a save would write nothing and report success")
 	r.Rule("WHO-collect", "the trie's own store is written only by insertNode (PutNode, DeleteNode) and deleteNode (DeleteNode), and the change collector is fed only there; in insertNode the new node is put under GetHashBytes() of that node, every success return either passes AddChange(old, new) or is reached only when old and new hash are equal, and the replaced node is deleted under its own hash; deleteNode records the change before deleting")
 	r.Rule("ORDER-KEY-save", "UpdateChanges writes all new nodes with exactly one MultiPutNode call outside any loop and before any delete; keys[i] is GetHashBytes() of the very node stored in nodes[i], which is a copy of the change's New node; every DeleteNode is reached only with includeDeletes true; SaveChanges hands its own store and includeDeletes arguments through unchanged; the save calls no node mutator (SetOrigin, SetVersion, SetValue, PutChild ...) on the copies it writes")
@@ -112,6 +113,7 @@ func runC04(r *engine.Run) {
 	domAdopt(r, "DOM-adopt")
 	freshPathBuf(r, "FRESH-pathbuf")
 	domTakeover(r, "DOM-takeover")
+	agreeFields(r)
 }
 
 func whoCollect(r *engine.Run) {
